@@ -391,6 +391,28 @@ def c15_lock_coverage(prog):
     return out
 
 
+_t6_failed_ctor = set()
+_t6_cache = {}
+
+
+def _t6_instance(cls):
+    if cls not in _t6_cache:
+        try:
+            _t6_cache[cls] = cls()
+        except Exception:
+            _t6_cache[cls] = None
+    return _t6_cache[cls]
+
+
+def _annotation_of(cls, name):
+    for c in cls.__mro__:
+        a = getattr(c, "__annotations__", {})
+        if name in a:
+            v = a[name]
+            return v if isinstance(v, str) else getattr(v, "__name__", None) and (str(v) if "[" in str(v) else v.__name__)
+    return None
+
+
 def c03_tables(prog):
     """C03.T1-T5: well-formedness of every avp_def row of every command class and grouped container (exhaustive):
     T1 the row has an AVP dictionary entry; T2 a row with a container class denotes a Grouped AVP (and only such rows);
@@ -431,6 +453,20 @@ def c03_tables(prog):
                 probs.append("T5: is_mandatory is not bool/None")
             if not r.attr_name.isidentifier():
                 probs.append("T5: attr_name is not an identifier")
+            # T6: an attribute annotated as a list is a list on a freshly constructed instance (repeated AVPs are then
+            # appended by assign_attr_from_defs instead of overwriting each other), and only such attributes are
+            ann = _annotation_of(cls, r.attr_name)
+            if ann is not None and cls not in _t6_failed_ctor:
+                inst = _t6_instance(cls)
+                if inst is None:
+                    _t6_failed_ctor.add(cls)
+                else:
+                    is_list_ann = ann.replace("typing.", "").lower().startswith("list[") or ann.lower() in ("list",)
+                    cur = getattr(inst, r.attr_name, None)
+                    if is_list_ann and not isinstance(cur, list):
+                        probs.append(f"T6: annotated {ann} but a new instance holds {type(cur).__name__}")
+                    if not is_list_ann and isinstance(cur, list):
+                        probs.append(f"T6: annotated {ann} but a new instance holds a list")
             out.append(GroundOb(oid, not probs, "; ".join(probs), witness={"class": cls.__name__, "attr": r.attr_name}))
     return out
 
